@@ -12,7 +12,7 @@ pkg=$(grep -m1 '^package ' $d/demo_test.go | awk '{print $2}')
 case "$pkg" in tcell|tcell_test) sub=. ;; views|views_test) sub=views ;; terminfo|terminfo_test) sub=terminfo ;; encoding) sub=encoding ;; extended|extended_test) sub=terminfo/extended ;; base) sub=terminfo/base ;; *) sub=. ;; esac
 tname=$(grep -o 'func Test[A-Za-z0-9_]*' $d/demo_test.go | head -1 | awk '{print $2}')
 res="applies=no"
-if git apply $d/patch.diff 2>/dev/null || { git apply -3 $d/patch.diff 2>/dev/null && git reset -q; }; then res="applies=yes"; else echo "$d $res"; exit 1; fi
+if git apply $d/patch.diff 2>/dev/null || { git apply -3 $d/patch.diff 2>/dev/null && git reset -q; }; then res="applies=yes"; else git reset -q --hard HEAD; echo "$d $res"; exit 1; fi
 if go build ./... 2>/dev/null; then res="$res build=ok"; else echo "$d $res build=FAIL"; exit 1; fi
 if go test -vet=off -count=1 ./... >/tmp/confirm.$$.log 2>&1; then res="$res suite=pass"; else res="$res suite=FAIL"; fi
 cp $d/demo_test.go $sub/zz_seeded_demo_test.go
